@@ -92,6 +92,9 @@ self.resid = np.inf
 """
 
 
+STATE_ARRAYS = {"sigpy.alg.GradientMethod": {"x", "z", "x_old"}, "sigpy.alg.PrimalDualHybridGradient": {"x", "u", "x_ext", "x_old", "u_old"}}
+
+
 def check(run, M, tier):
     run.rule("S1", "GradientMethod._update = x <- prox_{alpha g}(z - alpha grad f(z)) (z = x when not accelerated), t' = (1+sqrt(1+4t^2))/2, "
                    "z <- x + ((t-1)/t')(x - x_old), resid = ||x - x_old|| / alpha, on all four paths")
@@ -99,6 +102,9 @@ def check(run, M, tier):
                    "theta = 1/sqrt(1 + 2 gamma s_min) per acceleration branch; x_ext <- x + theta (x - x_old); resid from both variable changes")
     run.rule("S3", "the two acceleration branches are mirror images under tau<->sigma, gamma_primal<->gamma_dual")
     run.rule("S4", "constructor state (z copy and t = 1; x_ext copy; tau_min / sigma_min = min |step|)")
+    run.rule("S7", "no _update of GradientMethod / PDHG updates in place a value returned by A, AH, gradf or a prox (it may be the iterate or the dual variable itself)")
+    run.rule("S6", "at the end of __init__ and of _update no two state arrays of the algorithm are the same object (an extrapolation point bound to a scratch buffer "
+                   "is overwritten by the next update)")
     run.rule("S5", "the caller's arrays x (and u) are bound as given and never rebound afterwards: all updates are in place")
     run.assume("convergence theory (descent lemma, FISTA rate, Chambolle-Pock) is trusted mathematics; only the update forms are decided")
     eff = Effects(M)
@@ -124,6 +130,21 @@ def check(run, M, tier):
         compare_with_reference(run, "S4", cls.name + ".__init__", init, codei, refi, state_i, "documented initial state")
         if qual == PD:
             _mirror(run, upd, code)
+        # S7 operator results are never updated in place; S6 state arrays stay distinct objects
+        from ..common import check_operator_results_not_updated
+        check_operator_results_not_updated(run, eff, "S7", [upd], "the iterate or the dual variable the next update starts from")
+        for label, states in (("_update", code), ("__init__", codei)):
+            for o in states:
+                if o.status == "raise":
+                    continue
+                keys = [k for k in o.env if k.startswith("self.") and isinstance(o.env[k], T.Poly)]
+                clash = sorted({tuple(sorted((a, b))) for a in keys for b in keys if a < b and o.root(a) == o.root(b)
+                                and (a in o.alias or b in o.alias) and a.split(".")[1] in STATE_ARRAYS[qual] and b.split(".")[1] in STATE_ARRAYS[qual]})
+                run.check(not clash, "S6", "%s.%s[%s]" % (cls.name, label, cond_text(o.conds)[:50]), (upd if label == "_update" else init).loc(),
+                          "state arrays are distinct objects",
+                          "%s.%s leaves %s bound to one and the same array object under [%s]: the next in-place update of one silently changes the other "
+                          "(e.g. the extrapolation point is overwritten before it is used, and the accelerated method degrades to the plain one)"
+                          % (cls.name, label, " and ".join("%s / %s" % c for c in clash), cond_text(o.conds)[:80]), stmt="S6:%s:%s" % (cls.name, label))
         # S5 in-place discipline
         arrays = ["x"] if qual == GM else ["x", "u"]
         for name, f in sorted(cls.methods.items()):
